@@ -29,4 +29,35 @@ PROPS = {
             "float32 writes above MaxFloat32 are outside the claim",
         ],
     },
+    "C19": {
+        "runner": "diff",
+        "harness": "corr-misc",
+        "harness_args": ["-prop", "C19"],
+        "n": {"quick": 20000, "thorough": 1500000, "search": 200000},
+        "props_modules": ["GN.Props.C19"],
+        "theorems": ["GN.Props.C19." + t for t in [
+            "format_eq_spec", "no_args_identity", "trailing_percent_kept", "surplus_appended", "directive_takes_next",
+            "pctpct_and_unknown", "missing_arg_kept", "console_sinks_match", "console_methods_exactly", "console_eq_spec"]],
+        "rule": "cases = util.format calls with format strings over an alphabet rich in '%' (every position incl. last), directive and non-directive letters, multi-byte and astral characters, 0-5 arguments from a pool of strings/numbers/booleans/null/undefined/arrays/objects; every 4th case is a sequence of 1-5 console.log/info/debug/warn/error calls through a recording Printer. The three renderings of each argument are computed by calling goja directly. distinct_nontrivial = distinct case lines on which implementation, model and specification agreed",
+        "signature": lambda c, v: " ".join(c.split(" ")[1:3]),
+        "trusted_base": COMMON_TRUSTED + [
+            "goja's String(x), Number(x) and JSON.stringify(x) are parameters of the model (supplied per case by the harness); every theorem holds for all values of them",
+        ],
+        "assumptions": ["Symbols, BigInts and objects with custom inspection are outside the claim and not generated",
+                        "'%%' becomes '%' while an unused argument remains (the reading under which 'a directive that has no argument left stays as it is' also covers '%%')"],
+    },
+    "C20": {
+        "runner": "diff",
+        "harness": "corr-misc",
+        "harness_args": ["-prop", "C20"],
+        "n": {"quick": 400, "thorough": 20000, "search": 3000},
+        "props_modules": ["GN.Props.C20"],
+        "theorems": ["GN.Props.C20." + t for t in [
+            "split_first_eq", "split_none_iff", "snapshot_exact", "snapshot_distinct", "snapshot_entry",
+            "step_isolated", "run_host_unchanged", "run_isolated"]],
+        "rule": "cases = a generated environment (0-40 entries; names/values over a wide alphabet, empty values, several '=', non-ASCII, entries without '=') realised by running the probe in a child process started with exactly that environment, 1-3 runtimes sharing one Registry, 0-6 JS writes/deletes; observable: sorted Object.entries(process.env) of every runtime and os.Environ() afterwards. distinct_nontrivial = distinct case lines on which implementation, model and specification agreed",
+        "signature": lambda c, v: "env",
+        "trusted_base": COMMON_TRUSTED + ["os.Environ(), goja's wrapping of a Go map[string]string as a JS object (exercised, not proved)"],
+        "assumptions": ["names in a host environment are distinct and values are well-formed UTF-8 (what the generator produces)"],
+    },
 }
